@@ -133,6 +133,10 @@ func TestC19(t *testing.T) {
 			body = bulkBodyAllActions()
 		}
 		recRO := httpsim.Serve(ro, method, target, hdr, body)
+		// a server is asked the same thing more than once: what it refused it refuses again
+		for i, n := 0, rapid.SampledFrom([]int{0, 0, 1, 3}).Draw(rt, "sameAgain"); i < n; i++ {
+			recRO = httpsim.Serve(ro, method, target, hdr, body)
+		}
 		recRW := httpsim.Serve(rw, method, target, hdr, body)
 		roWrites, rwWrites := roBackend.Writes(), rwBackend.Writes()
 		nontrivial := len(rwWrites) > 0
@@ -573,10 +577,24 @@ func bulkOverEngine(rt *rapid.T, c *evid.Collector, prop string) {
 	}
 	cont := rapid.Bool().Draw(rt, "rcont")
 	var parts []string
+	keyOf := map[int]string{}
 	for i, e := range els {
-		// some elements carry an idempotency key of their own (never reused): it is theirs alone
+		// some elements carry an idempotency key of their own: it is theirs alone ...
 		if rapid.IntRange(0, 2).Draw(rt, "rik") == 0 && strings.HasPrefix(e.body, `{"action":"`) {
-			e.body = `{"ik":"rik-` + fmt.Sprint(i) + `",` + e.body[1:]
+			keyOf[i] = "rik-" + fmt.Sprint(i)
+			// ... unless a metadata element comes with the key of an earlier successful element that produced a
+			// transaction: a key that belongs to a write of another kind is refused
+			if e.kind == "meta" || e.kind == "delete" {
+				for j := 0; j < i; j++ {
+					if k, ok := keyOf[j]; ok && els[j].ok && (els[j].kind == "tx" || els[j].kind == "revert") && rapid.Bool().Draw(rt, "rikReuse") {
+						keyOf[i] = k
+						els[i].ok = false
+						e.ok = false
+						break
+					}
+				}
+			}
+			e.body = `{"ik":"` + keyOf[i] + `",` + e.body[1:]
 		}
 		parts = append(parts, e.body)
 	}
